@@ -291,8 +291,19 @@ def run(ctx, eng):
                        'validated first')
         elif looped and not vals:
             bad.append('the validation loop does not validate')
+        elif looped:
+            # each value's verdict is looked at inside its own iteration
+            res = vals[0].get('result')
+            tested = any(e.kind == 'assume' and e.in_loop and res is not None
+                         and res in cm._subterms(e.cond)
+                         for e in p.events[:i])
+            if not tested:
+                bad.append('the verdict of _validate_setting is not tested '
+                           'for every value (only after the loop, or not at '
+                           'all)')
     # the validation loop raises on a code
     raised = any(cm.explicit_raise(p) is not None and
+                 cm.explicit_raise(p).in_loop and
                  p.exc['names'] == {'InvalidSettingsValueError'} and
                  not [e for e in p.events if e.kind == 'call' and
                       cm.ev_callee_names(e) & {'update'}]
